@@ -26,8 +26,8 @@ TOL = 1e-8
 
 
 def mkalg(name, iters=50):
-    """algorithm objects; GMRES gets max_iters=50 (>= 4x the largest operator): with the default max_iters=1000 every product with the lazy
-    inverse builds a 1000-step Arnoldi factorisation (about 10 s per right-hand side on a 4x4 operator); the default object is exercised once per run"""
+    """algorithm objects; GMRES gets an explicit max_iters: with the default max_iters=1000 every product with the lazy inverse builds a
+    1000-step Arnoldi factorisation (about 10 s per right-hand side on a 4x4 operator)"""
     import cola
     from cola.linalg.algorithm_base import Algorithm
     if name == "AGMRES":
@@ -91,6 +91,24 @@ def findings():
     probe("inv_psd_alg_forwarded_to_factors", "inv(A, Cholesky()) / inv(A, CG()) on a PSD-declared Product/Kronecker/BlockDiag forwards the algorithm to the factors "
           "and raises AssertionError when a factor is not itself declared PSD", forwarded, "inv(PSD(Kronecker(PSD(D), D)), Cholesky()) with D=Dense([[2,1],[1,3]])")
 
+    def gmres_padding():
+        X = inv(ops.Transpose(ops.Identity((3, 3), np.float64)), cola.linalg.GMRES(max_iters=4))
+        B = np.array([[1., 2.], [0., 1.], [3., 0.]])
+        Y = np.asarray(X @ B)
+        return not np.allclose(Y, B), Y.tolist()
+    probe("inv_gmres_padding_singular", "inv(A, GMRES(max_iters > n)) @ b (in particular the default max_iters=1000) raises LinAlgError 'Singular matrix' once the Krylov space is exhausted "
+          "(C13 flag arnoldi_padding seen through inv/solve)", gmres_padding, "inv(Transpose(Identity(3)), GMRES(max_iters=4)) @ [[1,2],[0,1],[3,0]]")
+
+    def gmres_breakdown():
+        T3 = np.array([[2., 1., 0.], [1., 3., 1.], [0., 1., 4.]])
+        b = np.array([1., 1 + np.sqrt(3), 2 + np.sqrt(3)])
+        x = np.asarray(inv(ops.Dense(T3), cola.linalg.GMRES(max_iters=3, tol=1e-10)) @ b)
+        res = float(np.linalg.norm(T3 @ x - b) / np.linalg.norm(b))
+        return not res <= 1e-8, f"relative residual {res:.2e}"
+    probe("inv_gmres_breakdown_continues", "inv(A, GMRES(max_iters <= n)) @ b misses the requested tolerance (or raises LinAlgError) when the Krylov space is exhausted before max_iters, "
+          "e.g. an eigenvector right-hand side (C13 flag arnoldi_breakdown_continues seen through inv/solve)", gmres_breakdown,
+          "inv(Dense([[2,1,0],[1,3,1],[0,1,4]]), GMRES(max_iters=3, tol=1e-10)) @ [1, 1+sqrt(3), 2+sqrt(3)]")
+
     def unitary_dead():
         Q = np.array([[0., 1.], [1., 0.]])
         ts = [L.type_str(inv(cola.Unitary(ops.Dense(Q)), mkalg(n))) for n in ("AAuto", "ALU", "AGMRES")]
@@ -129,9 +147,12 @@ def gen_trees(ctx, n_trees, present):
             t = g.uni_tree(n, r.randint(0, 2), cplx)
         if "scalarmul_device_cpu" in present and L.has_scal_below_prod(t):
             continue
+        D = T.dense(t)
+        if D.shape[0] != D.shape[1] or not np.all(np.isfinite(D)) or np.linalg.matrix_rank(D) < D.shape[0] or np.linalg.cond(D) > g.kappa:
+            continue
         if "concat_assert_wrong_axis" in present:
             pass  # GenInv.tree builds equal-height parts only
-        out.append(dict(tree=t, fam=fam, cplx=cplx))
+        out.append(dict(tree=t, fam=fam, cplx=cplx, present=present))
     return out
 
 
@@ -162,25 +183,32 @@ def run_impl(case, rnd):
     B = T.arr(Bg, dt)
     BL = T.arr(BLg, dt)
     obs = {}
+    it = n if "inv_gmres_padding_singular" in case.get("present", ()) else 50
     for alg in ALGS:
-        o = dict(alg=alg)
+        o = dict(alg=alg, perr={})
         with L.Recorder() as rec:
             try:
-                X = inv(A, mkalg(alg))
+                X = inv(A, mkalg(alg, it))
                 o["type"] = L.type_str(X)
                 o["rty"] = L.rty(X)
-                o["dense"] = np.asarray(X.to_dense())
-                o["res"] = np.asarray(X @ B)
-                o["res1"] = np.asarray(X @ B[:, 0])
-                o["solve"] = np.asarray(solve(A, B, mkalg(alg)))
-                o["solve1"] = np.asarray(solve(A, B[:, 0], mkalg(alg)))
-                o["resl"] = np.asarray(BL @ X)
-                o["resl1"] = np.asarray(BL[0] @ X)
                 o["ok"] = True
             except Exception as e:
                 o["ok"] = False
                 o["err"] = type(e).__name__
                 o["msg"] = str(e)[:160]
+            if o["ok"]:
+                for name, fn in (("dense", lambda: X.to_dense()), ("res", lambda: X @ B), ("res1", lambda: X @ B[:, 0]),
+                                 ("solve", lambda: solve(A, B, mkalg(alg, it))), ("solve1", lambda: solve(A, B[:, 0], mkalg(alg, it))),
+                                 ("resl", lambda: BL @ X), ("resl1", lambda: BL[0] @ X)):
+                    try:
+                        with np.errstate(all="ignore"):
+                            o[name] = np.asarray(fn())
+                    except Exception as e:
+                        o["perr"][name] = f"{type(e).__name__}: {str(e)[:100]}"
+                if o["perr"] and "TIter" not in o["rty"]:
+                    o["ok"] = False
+                    o["err"] = "product:" + sorted(o["perr"].values())[0].split(":")[0]
+                    o["msg"] = str(o["perr"])[:200]
         # LAPACK calls of the first inv(...) only are needed by the model; duplicates are harmless (table lookup by input matrix)
         o["lu"], o["chol"] = rec.lu, rec.chol
         obs[alg] = o
@@ -238,27 +266,38 @@ def oracle(t, io, o, present):
     sc = max(1.0, np.abs(ref).max())
     if iterative:
         # the requested tolerance: relative residual (CG/GMRES default tol 1e-6), margin 100x
-        for name, X, rhs in (("inv@b", o["res"], B), ("solve", o["solve"], B)):
-            res = np.linalg.norm(D @ X - rhs) / max(np.linalg.norm(rhs), 1e-300)
+        for name, e in sorted(o["perr"].items()):
+            bad.append(f"{name} raised {e}")
+        for name, rhs in (("res", B), ("solve", B)):
+            if name in o:
+                res = np.linalg.norm(D @ o[name] - rhs) / max(np.linalg.norm(rhs), 1e-300)
+                if not res <= 1e-4:
+                    bad.append(f"{name}: relative residual {res:.2e}")
+        if "resl" in o:
+            res = np.linalg.norm(o["resl"] @ D - BL) / max(np.linalg.norm(BL), 1e-300)
             if not res <= 1e-4:
-                bad.append(f"{name}: relative residual {res:.2e}")
-        res = np.linalg.norm(o["resl"] @ D - BL) / max(np.linalg.norm(BL), 1e-300)
-        if not res <= 1e-4:
-            bad.append(f"b@inv: relative residual {res:.2e}")
-        if not np.abs(o["dense"] - ref).max() <= 1e-3 * sc * n:
+                bad.append(f"b@inv: relative residual {res:.2e}")
+        if "dense" in o and not np.abs(o["dense"] - ref).max() <= 1e-3 * sc * n:
             bad.append("to_dense of the iterative inverse")
-    else:
-        tol = TOL * 100   # the Coq comparison uses 1e-8 against the exact value; this independent float oracle is itself rounded
-        if o["dense"].shape != ref.shape or not np.abs(o["dense"] - ref).max() <= tol * sc:
-            bad.append("inv(A).to_dense()")
-        for name, X, want in (("inv@b", o["res"], ref @ B), ("solve", o["solve"], ref @ B), ("b@inv", o["resl"], BL @ ref)):
-            if X.shape != want.shape or not np.abs(X - want).max() <= tol * max(1.0, np.abs(want).max()):
-                bad.append(name)
+        for a, b_ in (("res1", "res"), ("solve1", "solve")):
+            if a in o and b_ in o and not np.abs(o[a] - o[b_][:, 0]).max() <= 1e-3 * max(1.0, np.abs(o[b_]).max()):
+                bad.append(a)
+        if bad and "TIterGMRES" in o["rty"]:
+            for fl in ("inv_gmres_padding_singular", "inv_gmres_breakdown_continues"):
+                if fl in present:
+                    return bad, fl
+        return bad, None
+    tol = TOL * 100   # the Coq comparison uses 1e-8 against the exact value; this independent float oracle is itself rounded
+    if o["dense"].shape != ref.shape or not np.abs(o["dense"] - ref).max() <= tol * sc:
+        bad.append("inv(A).to_dense()")
+    for name, X, want in (("inv@b", o["res"], ref @ B), ("solve", o["solve"], ref @ B), ("b@inv", o["resl"], BL @ ref)):
+        if X.shape != want.shape or not np.abs(X - want).max() <= tol * max(1.0, np.abs(want).max()):
+            bad.append(name)
     # 1-D right-hand sides and solve == inv @ b
     for name, v, M in (("inv@b 1-D", o["res1"], o["res"][:, 0]), ("solve 1-D", o["solve1"], o["solve"][:, 0]), ("b@inv 1-D", o["resl1"], o["resl"][0])):
-        if v.shape != M.shape or not np.abs(v - M).max() <= (1e-4 if iterative else 1e-10) * max(1.0, np.abs(M).max()):
+        if v.shape != M.shape or not np.abs(v - M).max() <= 1e-10 * max(1.0, np.abs(M).max()):
             bad.append(name)
-    if not iterative and not np.array_equal(o["res"], o["solve"]):
+    if not np.array_equal(o["res"], o["solve"]):
         bad.append("solve(A,b) differs from inv(A)@b")
     return bad, None
 
